@@ -11,7 +11,7 @@ import (
 func init() {
 	register(&propInfo{
 		id: "C17", fn: checkC17, multiConfig: true,
-		explanation: "The segmentation quantifier ranges over runtime delivery; what is decided are the structural conditions without which a short delivery could yield a truncated message. (r1) package p9 never calls Read on the transport directly: the header is read with io.ReadAtLeast(r, hdr, headerLength), bodies with vecnet.Buffers.ReadFrom, rejected bodies are drained with io.Copy on a LimitReader; (r2) complete-fill loops: in Buffers.ReadFrom and (where it is compiled) readFromBuffersLinux the only return with a nil error is the statement after the fill loop(s), whose loop condition compares the accumulated count with the requested length and which contain no break/goto out of the fill; every return inside the loops carries a non-nil error (a constant such as io.EOF, or err under err != nil), and a zero-byte read without error cannot loop for ever (generic path: n == 0 && err == nil → io.EOF; Linux path: recvmsg turns a 0-byte receive into io.EOF); (r3) lock-step accounting: the count added to the accumulator is the count returned by that very read, the destination of the next read starts at the accumulator (buf[filled:]), and on the Linux path the iovec consumption loop advances by exactly the bytes not yet accounted for (bufs[0][cur−consumed:] with consumed accumulated from the lengths of the buffers dropped) — a template check of that idiom; (r4) errors of both reads reach recv's caller as ConnError before decode is reached; (r5) ReadFrom selects the vectored path only for syscall.Conn readers when it is compiled in; the quick tier analyses linux/amd64 (both functions), the thorough tier also linux/386, windows and darwin where only the generic path exists.",
+		explanation: "The segmentation quantifier ranges over runtime delivery; what is decided are the structural conditions without which a short delivery could yield a truncated message. (r1) package p9 never calls Read on the transport directly: the header is read with io.ReadAtLeast(r, hdr, headerLength), bodies with vecnet.Buffers.ReadFrom, rejected bodies are drained with io.Copy on a LimitReader; (r2) complete-fill loops: in Buffers.ReadFrom and (where it is compiled) readFromBuffersLinux the only return with a nil error is the statement after the fill loop(s), whose loop condition compares the accumulated count with the requested length and which contain no break/goto out of the fill; every return inside the loops carries a non-nil error (a constant such as io.EOF, or err under err != nil), and a zero-byte read without error cannot loop for ever (generic path: n == 0 && err == nil → io.EOF; Linux path: recvmsg turns a 0-byte receive into io.EOF); (r3) lock-step accounting: the count added to the accumulator is the count returned by that very read, the destination of the next read starts at the accumulator (buf[filled:]), and on the Linux path the iovec consumption loop advances by exactly the bytes not yet accounted for (bufs[0][cur−consumed:] with consumed accumulated from the lengths of the buffers dropped) — a template check of that idiom; (r4) errors of both reads reach recv's caller as ConnError before decode is reached; (r5) ReadFrom selects the vectored path only for syscall.Conn readers when it is compiled in; the quick tier analyses linux/amd64 (both functions), the thorough tier also linux/386, windows and darwin where only the generic path exists. (r4) the body of an undecodable frame is drained by exactly its length from the stream itself (the rule of C02.r3), so the frames after it are found wherever the transport cut.",
 		assumptions: []string{"explicitly partial: the arithmetic of iovec consumption for every split and the kernel's recvmsg behaviour are not decided; r3 checks the shape of the consumption idiom, not its result for all splits"},
 	})
 }
@@ -126,6 +126,13 @@ func checkC17(r *Run) {
 		okTest = connOK != "" && s.St.holds(connOK, true) && s.St.holds(id.Name+" == nil", false)
 	}
 	r.check(okTest, "r5", "ReadFrom uses the vectored path only for syscall.Conn readers", gen.Decl.Pos(), "r.(syscall.Conn) ok && readFromBuffers != nil", "the path selection in ReadFrom is not 'r is a syscall.Conn and the vectored reader exists'")
+
+	// r4: what follows an undecodable frame does not depend on how it was delivered: the body
+	// is drained with exactly its length from the stream itself (no read-ahead that is thrown
+	// away) on every non-connection-error exit of recv (the rule of C02.r3)
+	if r.borrowed == nil {
+		r.borrow(checkC02, map[string]string{"r3": "r4"})
+	}
 }
 
 // loopsWithoutEscape: no break/goto/labelled continue inside n (other than inside nested function literals).
